@@ -53,7 +53,9 @@ struct V {
     rad_tok: JwsCompact,
     ux_tok: JwsCompact,
     anon_tok: JwsCompact,
+    st_uat: JwsCompact,
     ldap_sess: LdapSession,
+    anon_ldap_sess: LdapSession,
     grant: Option<Grant>,
     stpw: String,
     now: u64,
@@ -111,15 +113,24 @@ impl V {
         while !w.pending.is_empty() {
             w.apply_pending(0, 2).await;
         }
+        let st_uat = w.login(2, "st", false, AuthMech::Password, vec![AuthCredential::Password(stpw.clone())]).await.expect("st login");
+        while !w.pending.is_empty() {
+            w.apply_pending(0, 2).await;
+        }
         let ldap_sess = w.ldap_bind(2, uuid_n(PT), UPW).await.expect("ldap bind");
+        let anon_ldap_sess = w.ldap_bind(2, UUID_ANONYMOUS, "").await.expect("anonymous ldap bind");
         let ident = w.present(3, &uat).await.expect("ident");
         let code = w.o2_authorise(3, &ident).await.expect("authorise");
         let grant = w.o2_exchange(3, &code).await.expect("exchange");
-        V { w, cert, uat, api, rad_tok, ux_tok, anon_tok, ldap_sess, grant: Some(grant), stpw, now: 10 }
+        V { w, cert, uat, api, rad_tok, ux_tok, anon_tok, st_uat, ldap_sess, anon_ldap_sess, grant: Some(grant), stpw, now: 10 }
     }
 
     async fn set_window(&mut self, vf: i64, ex: i64) {
-        for n in [PT, ST] {
+        self.set_window_on(&[uuid_n(PT), uuid_n(ST)], vf, ex).await
+    }
+
+    async fn set_window_on(&mut self, targets: &[Uuid], vf: i64, ex: i64) {
+        for u in targets.iter().copied() {
             let mut mods = vec![Modify::Purged(Attribute::AccountValidFrom), Modify::Purged(Attribute::AccountExpire)];
             if vf >= 0 {
                 mods.push(Modify::Present(Attribute::AccountValidFrom, Value::new_datetime_epoch(t_abs(vf as u64))));
@@ -127,7 +138,7 @@ impl V {
             if ex >= 0 {
                 mods.push(Modify::Present(Attribute::AccountExpire, Value::new_datetime_epoch(t_abs(ex as u64))));
             }
-            let r = self.w.modify(self.now, uuid_n(n), mods).await;
+            let r = self.w.modify(self.now, u, mods).await;
             if r != "ok" {
                 eprintln!("TOOL-ERROR cannot set validity window: {r}");
                 std::process::exit(2);
@@ -146,6 +157,16 @@ impl V {
                 }
                 self.uat = tok;
                 self.grant = None;
+            }
+        }
+        // generated-password sessions are limited to one hour
+        if self.w.present(self.now + 900, &self.st_uat).await.is_err() {
+            let pw = self.stpw.clone();
+            if let Ok(tok) = self.w.login(self.now, "st", false, AuthMech::Password, vec![AuthCredential::Password(pw)]).await {
+                while !self.w.pending.is_empty() {
+                    self.w.apply_pending(0, self.now).await;
+                }
+                self.st_uat = tok;
             }
         }
         if self.w.present(soon, &self.anon_tok).await.is_err() {
@@ -265,6 +286,27 @@ impl V {
                 }
             }
             "bearer" => ok(self.w.present(at, &self.uat).await.map(|_| ())),
+            // previously issued tokens of the other account kinds
+            "bearer_st" => ok(self.w.present(at, &self.st_uat).await.map(|_| ())),
+            "bearer_an" => ok(self.w.present(at, &self.anon_tok).await.map(|_| ())),
+            "auth_anon" => {
+                let r = self.w.login(at, "anonymous", false, AuthMech::Anonymous, vec![AuthCredential::Anonymous]).await;
+                ok(r.map(|_| ()))
+            }
+            "ldap_anon_bind" => ok(self.w.ldap_bind(at, UUID_ANONYMOUS, "").await.map(|_| ())),
+            "ldap_session_an" => ok(self.w.ldap_use(at, &self.anon_ldap_sess).await.map(|_| ())),
+            "ldap_token_an" => {
+                use kanidmd_lib::idm::event::LdapTokenAuthEvent;
+                let mut a = self.w.idms.auth().await.expect("auth");
+                let ev = LdapTokenAuthEvent::from_parts(self.anon_tok.clone()).expect("ev");
+                let r = a.token_auth_ldap(&ev, t(at)).await;
+                drop(a);
+                match r {
+                    Ok(Some(b)) => ok(self.w.ldap_use(at, &b.effective_session).await.map(|_| ())),
+                    Ok(None) => ("denied".into(), false),
+                    Err(e) => (class_of(&e), false),
+                }
+            }
             "api" => ok(self.w.present(at, &self.api).await.map(|_| ())),
             "cert" => ok(self.w.present_cert(at, &self.cert).await.map(|_| ())),
             "o2_authorise" => match self.w.present(at, &self.uat).await {
@@ -293,7 +335,12 @@ impl V {
 }
 
 /// (port, askers, account)
-pub const PORTS: [(&str, &[&str], &str); 17] = [
+/// ports whose subject is the ANONYMOUS account: run in a second pass of every row with the window set on
+/// the anonymous account only (the other askers need a live anonymous identity in the first pass)
+pub const ANON_PORTS: [&str; 5] = ["auth_anon", "ldap_anon_bind", "bearer_an", "ldap_token_an", "ldap_session_an"];
+
+pub const PORTS: [(&str, &[&str], &str); 18] = [
+    ("bearer_st", &["self"], "st"),
     ("auth_pw", &["self"], "pt"),
     ("auth_pk", &["self"], "pt"),
     ("auth_genpw", &["self"], "st"),
@@ -339,6 +386,23 @@ async fn row(v: &mut V, tr: &mut Tracer, vf: i64, ex: i64, tq: u64, only: Option
             tr.emit(&json!({"a":"port","port":port,"asker":who,"acct":acct,"vf":relsecs(svf),"ex":relsecs(sex),"t":tq,"res":res,"rel":rel}));
         }
     }
+    // second pass: the same window on the ANONYMOUS account (set AFTER its token / LDAP session were issued)
+    v.set_window(-1, -1).await;
+    v.set_window_on(&[UUID_ANONYMOUS], vf, ex).await;
+    for port in ANON_PORTS.iter() {
+        if let Some((p, _)) = only {
+            if p != *port {
+                continue;
+            }
+        }
+        let (svf, sex) = match v.w.entry(UUID_ANONYMOUS).await {
+            Some(e) => kt::validity(&e),
+            None => (-1, -1),
+        };
+        let (res, rel) = v.port(port, "self", tq).await;
+        tr.emit(&json!({"a":"port","port":port,"asker":"self","acct":"an","vf":relsecs(svf),"ex":relsecs(sex),"t":tq,"res":res,"rel":rel}));
+    }
+    v.set_window_on(&[UUID_ANONYMOUS], -1, -1).await;
 }
 
 pub fn run(o: &Opts) -> i32 {
